@@ -64,7 +64,11 @@ def main():
     os.makedirs(dst, exist_ok=True)
     shutil.copy('%s/patch%s.diff' % (out, n), dst + '/patch.diff')
     shutil.copy('%s/demo%s.rs' % (out, n), dst + '/demo.rs')
-    caught = {c: ('VIOLATION' in ' '.join(r['lines'])) for c, r in results.items()}
+    # a harness that does not build (e.g. an edit of /verif in progress) is not a catch
+    caught = {c: ('VIOLATION' in ' '.join(r['lines'])) and 'harness build against' not in r['detail'] for c, r in results.items()}
+    for c, r in results.items():
+        if 'harness build against' in r['detail']:
+            print('WARNING: %s: the harness did not build against the changed tree - not counted as caught' % c)
     json.dump({
         'property': prop, 'seed': int(n),
         'breaks': meta.get('what_it_breaks', ''), 'needs_to_manifest': meta.get('needs_to_manifest', ''),
